@@ -25,7 +25,7 @@ import (
 
 func init() { workers["eval"] = workerEval }
 
-var workerGoroutines sync.Map // goroutine ids that executed slow()
+var workerGoroutines atomic.Pointer[sync.Map] // goroutine ids that executed slow() in the current case
 var workerTicks atomic.Int64
 
 func goid() int64 {
@@ -47,10 +47,13 @@ func newHostFG(optimize bool) *value.FunctionGenerator {
 			Args: 1, IsPure: pure}.SetDescription("v", "host function of the verification harness"))
 	}
 	add("slow", false, func(v value.Value) (value.Value, error) {
-		workerGoroutines.Store(goid(), true)
+		if m := workerGoroutines.Load(); m != nil {
+			m.Store(goid(), true)
+		}
 		time.Sleep(300 * time.Microsecond)
 		return v, nil
 	})
+	add("quick", false, func(v value.Value) (value.Value, error) { return v, nil })
 	add("boom", false, func(v value.Value) (value.Value, error) { panic("host function panics") })
 	add("fail", false, func(v value.Value) (value.Value, error) { return nil, fmt.Errorf("host function fails") })
 	add("tick", false, func(v value.Value) (value.Value, error) { workerTicks.Add(1); return v, nil })
@@ -73,11 +76,12 @@ func workerEval(args []string) {
 		a, _ := strconv.Atoi(f[1])
 		flags := f[2]
 		fg := newHostFG(!strings.Contains(flags, "noopt"))
-		workerGoroutines = sync.Map{}
+		seen := &sync.Map{}
+		workerGoroutines.Store(seen) // a read-ahead element of the previous case may still be running: it keeps its own map
 		before := workerTicks.Load()
 		res := evalOutcome(fg, f[3], []string{"a"}, []value.Value{value.Int(a)})
 		ng := 0
-		workerGoroutines.Range(func(k, v any) bool { ng++; return true })
+		seen.Range(func(k, v any) bool { ng++; return true })
 		fmt.Fprintf(out, "%s\t%s\tg=%d\tt=%d\n", f[0], res, ng, workerTicks.Load()-before)
 		out.Flush()
 	}
